@@ -1071,7 +1071,7 @@ def build_programs(ctx):
     only = os.environ.get("VERIF_C01_FAMILIES")       # development aid (tools/c01_try_fix.sh): restrict the families
     if only:
         return [p for p in progs if p["fam"] in only.split(",")]
-    nrand = ctx.pick(300, 20000)
+    nrand = ctx.pick(300, 10000)
     per = ctx.pick(100, 500)
     k = 0
     while k * per < nrand:
@@ -1104,7 +1104,11 @@ def main(ctx):
         cases = execute(ctx, [{"id": "replay", "fam": "replay", "src": case["src"], "opts": case["opts"]}])
         rej = tlc_batches(ctx, cases, "replay", 1)
         classify(ctx, cases, rej, new_stats())
-        ctx.cov["traces_validated_against_impl"] = len(cases)
+        ctx.cov["traces_validated_against_impl"] = 2 * len(cases)
+        # a replay re-executes one program: known findings it does not touch are not "stale"
+        keep = sorted(ctx.known_hits)
+        ctx.findings = [ctx.findings[i] for i in keep]
+        ctx.known_hits = {j: ctx.known_hits[i] for j, i in enumerate(keep)}
         return
     import time
     t0 = time.time()
@@ -1253,7 +1257,7 @@ def model_check(ctx):
         cfg = os.path.join(ctx.scratch, "PyExprMC_%s.cfg" % w)
         open(cfg, "w").write("SPECIFICATION Spec\nINVARIANT %s\nCHECK_DEADLOCK FALSE\n" % w)
         runs.append((w, cfg))
-    res = parallel([(lambda c=c, l=l: tlc.run("PyExprMC", c, ctx.scratch, workers=(min(4, CAP) if CAP else 4) if l == "Theorems" else 1, timeout=3000,
+    res = parallel([(lambda c=c, l=l: tlc.run("PyExprMC", c, ctx.scratch, workers=(min(4, CAP) if CAP else ctx.pick(4, 8)) if l == "Theorems" else 1, timeout=3000,
                                                env={"SKELS": path, "JAVA_TOOL_OPTIONS": jopts})) for l, c in runs], max_workers=1 if CAP else 4)
     return sk, list(zip([l for l, _ in runs], res))
 
